@@ -127,25 +127,7 @@ pub broadcast proof fn b_rm_seq_step(q: Seq<String>, ks: Seq<String>, i: int)
 pub broadcast proof fn b_rm_seq_empty(q: Seq<String>, ks: Seq<String>)
     ensures #[trigger] rm_seq(q, ks.take(0)) == q
 { assert(ks.take(0).len() == 0); }
-pub broadcast proof fn b_take_contains(ks: Seq<String>, i: int, k: String)
-    requires 0 <= i < ks.len()
-    ensures #[trigger] ks.take(i + 1).contains(k) <==> (ks.take(i).contains(k) || ks[i] == k)
-{
-    if ks.take(i + 1).contains(k) {
-        let t1 = ks.take(i + 1); let j = choose|j: int| 0 <= j < t1.len() && t1[j] == k;
-        if j < i { assert(ks.take(i)[j] == k); }
-    }
-    if ks.take(i).contains(k) {
-        let t0 = ks.take(i); let j = choose|j: int| 0 <= j < t0.len() && t0[j] == k;
-        assert(ks.take(i + 1)[j] == k);
-    }
-    if ks[i] == k { assert(ks.take(i + 1)[i] == k); }
-}
-pub broadcast proof fn b_take_full(ks: Seq<String>, n: int)
-    requires n == ks.len()
-    ensures #[trigger] ks.take(n) == ks
-{ assert(ks.take(n) =~= ks); }
-pub broadcast group group_cb { b_rm_seq_step, b_rm_seq_empty, b_take_contains, b_take_full }
+pub broadcast group group_cb { b_rm_seq_step, b_rm_seq_empty }
 ''')
 
 BODY_SPEC = {'body2(a, b)': 'body2_spec(a, b)', 'body_res(a)': 'body_res_spec(a)', '0': '0u64'}
